@@ -695,6 +695,45 @@ func (c *ExprCtx) call(x CCall) TV {
 			return TV{V: T{"(exists ((" + bv.S + " Int)) " + And(rng, body).S + ")", SBool}, Typ: types.Typ[types.Bool]}
 		case "ret":
 			return c.retOf(x.Args)
+		case "retn":
+			// retn(callee, i[, k]): i-th component of the k-th call's result tuple
+			if len(x.Args) < 2 {
+				c.fail("retn(callee, i[, k])")
+			}
+			iv, ok := litValue(c.intExpr(x.Args[1]))
+			if !ok {
+				c.fail("retn: constant component index expected")
+			}
+			rest := []CExpr{x.Args[0]}
+			if len(x.Args) > 2 {
+				rest = append(rest, x.Args[2])
+			}
+			tv := c.retOf(rest)
+			tup, ok := tv.V.(*TupleV)
+			if !ok {
+				if e.pass == 1 {
+					return tv
+				}
+				c.fail("retn: %s does not return a tuple", cexprString(x.Args[0]))
+			}
+			tt := tv.Typ.(*types.Tuple)
+			i := int(iv.Int64())
+			if i >= len(tup.E) {
+				c.fail("retn: component %d out of range", i)
+			}
+			return TV{V: tup.E[i], Typ: tt.At(i).Type()}
+		case "entry":
+			// entry(param): the value the parameter had on entry
+			id, ok := x.Args[0].(CIdent)
+			if !ok || c.fr == nil {
+				c.fail("entry(paramName)")
+			}
+			for _, p := range e.top.fn.Params {
+				if p.Name() == id.Name {
+					return TV{V: e.val(e.top, p), Typ: p.Type()}
+				}
+			}
+			c.fail("entry(%s): no such parameter", id.Name)
 		case "arg":
 			return c.argOf(x.Args)
 		case "isnil":
